@@ -38,6 +38,19 @@ DESC = {
  'b3-C17': '`Days` rebuilt on `taken`/`remaining` counters; `next_back` ignores `taken`',
  'b3-C18': 'CLI: `-r` stored aside and installed after the option loop, so a later `-j` no longer wins',
  'b3-C20': 'CLI `date2json`: `"day"` printed from `day_ordinal()`',
+ 'b4-C02': '`gregorian2jdn`: explicit range guard replaced by `checked_add` on the two final sums only',
+ 'b4-C04': '`first_gregorian_date`: `day_ordinal` chosen by "same month" instead of `GapKind::IntraMonth`',
+ 'b4-C05': '`unix2jdn`: seconds of day as `t - days * 86400`, computed before the range check',
+ 'b4-C06': '`first_gregorian_date`: same one-line change as b4-C04, found independently',
+ 'b4-C08': '`month_shape`: `post_reform.month == month` instead of `GapKind::IntraMonth`',
+ 'b4-C10': '`AndLater::next` with an extra `?`: the last date at the upper limit is never yielded',
+ 'b4-C11': '`Ord for inner::Calendar`: reforming calendars compared by `(post_reform.year, post_reform.ordinal)`',
+ 'b4-C13': '`DateParser`: merged number parser lets a `+` through in front of month, day and ordinal',
+ 'b4-C15': '`FromStr for Weekday` through `to_uppercase()` (full Unicode case mapping: `ſun`, `frı`)',
+ 'b4-C16': '`TryFrom<Date> for NaiveDate` through `from_num_days_from_ce_opt(jdn - 1721425)` (unchecked subtraction)',
+ 'b4-C17': '`MonthIter` rebuilt on two counters that may cross',
+ 'b4-C19': 'CLI: digit-cluster branch uses `v.string()?` — non-Unicode error raised before a later `-h`',
+ 'b4-C20': 'CLI `Options::run`: comma / bracket patching by argument count (breaks `-J` with no argument)',
 }
 def prop_table():
     rows = []
@@ -49,7 +62,7 @@ def prop_table():
     return '\n'.join(rows)
 def seeded_table():
     rows = []; last = None
-    order = sorted(glob.glob(V + '/seeded/*/'), key=lambda d: (0 if 'revert' in d else 1 if 'mut-' in d else 2, d))
+    order = sorted(glob.glob(V + '/seeded/*/'), key=lambda d: (0 if 'revert' in d else 1 if 'mut-' in d else 2 if 'b3-' in d else 3, d))
     for d in order:
         name = os.path.basename(d.rstrip('/'))
         m = json.load(open(d + 'meta.json'))
